@@ -54,25 +54,9 @@ impl<'ctx> CodeFinder<'ctx> {
     { unimplemented!() }
 }
 
-// ---- lock file (verified in unit `context`; here its contract) --------------------------------------------
-pub uninterp spec fn lock_bytes(id: u32) -> Seq<u8>;   // CACHE_EDIT_WARNING + serde_yaml::to_string(Cache{id})
-impl Context {
-    #[verifier::external_body]
-    pub fn cache_next_reference_id(&self, id: u32, directory_path: &str, Tracked(w): Tracked<&mut World>)
-        requires
-            !old(w).check_mode, // [C04.nowrite]
-            atomic_inv(*old(w)), // [C07.frame]
-        ensures
-            same_but_fs(World { log: final(w).log, ..*old(w) }, *final(w)),
-            forall|p: Seq<char>| p != lock_path() ==> (#[trigger] final(w).fs.dom().contains(p)) == old(w).fs.dom().contains(p),
-            forall|p: Seq<char>| p != lock_path() ==> (#[trigger] final(w).fs[p]) == old(w).fs[p],
-            !self.config.use_cache ==> final(w).fs == old(w).fs,
-            // written completely, or (failed write, reported as a warning) anything at the lock path only
-            self.config.use_cache ==> (final(w).fs.dom().contains(lock_path()) && final(w).fs[lock_path()] == lock_bytes(id)) || lock_write_failed(),
-    { unimplemented!() }
-}
-// whether this run's write of the lock file failed (reported as warning [ref: 33]/[ref: 34])
-pub uninterp spec fn lock_write_failed() -> bool;
+// ---- lock file: Context::cache_next_reference_id is verified in unit `context`; its woven contract is emitted
+// here as a stub by the unit builder (stub_of).  lock_bytes is defined there; abstract here.
+pub uninterp spec fn lock_bytes(id: u32) -> Seq<u8>;
 
 // ---- atomics ------------------------------------------------------------------------------------------------
 // the stop flag: a stop request may be seen at any poll
